@@ -130,6 +130,7 @@ pub struct WireEv {
     pub t_before: Instant,
     pub t_after: Instant,
     pub v_ms: u64,
+    pub step: u64,
 }
 pub type WireLog = Rc<RefCell<Vec<WireEv>>>;
 
@@ -159,7 +160,7 @@ where
         let t_after = Instant::now();
         if r.is_ok() {
             let (link, c2s) = (self.link, self.client_end);
-            self.log.borrow_mut().push(WireEv { link, c2s, send: true, item: abs, t_before, t_after, v_ms: vnow() });
+            self.log.borrow_mut().push(WireEv { link, c2s, send: true, item: abs, t_before, t_after, v_ms: vnow(), step: VNOW.with(|c| c.get().1) });
         }
         r
     }
@@ -182,7 +183,7 @@ where
         let t_after = Instant::now();
         if let Poll::Ready(Some(Ok(i))) = &r {
             let (link, c2s) = (self.link, !self.client_end);
-            self.log.borrow_mut().push(WireEv { link, c2s, send: false, item: i.abs(), t_before, t_after, v_ms: vnow() });
+            self.log.borrow_mut().push(WireEv { link, c2s, send: false, item: i.abs(), t_before, t_after, v_ms: vnow(), step: VNOW.with(|c| c.get().1) });
         }
         r
     }
@@ -624,7 +625,10 @@ async fn run_inner(cfg: &Cfg, out: &mut Outcome) {
                 let t = &mut tasks[i];
                 t.flag.clear();
                 let w = waker(t.flag.clone());
-                let r = catch_unwind(AssertUnwindSafe(|| t.fut.as_mut().unwrap().as_mut().poll(&mut Context::from_waker(&w))));
+                let r = catch_unwind(AssertUnwindSafe(|| {
+                    let f = t.fut.as_mut().unwrap();
+                    poll_unconstrained(&mut Context::from_waker(&w), |cx| f.as_mut().poll(cx))
+                }));
                 match r {
                     Err(p) => {
                         sh.borrow_mut().panics.push(format!("{}: {}", t.name, panic_msg(&p)));
@@ -834,10 +838,14 @@ fn final_oracles(cfg: &Cfg, sh: &Rc<RefCell<Shared>>, calls: &[CallRec], log: &W
                     out.viol("C18", "hop-span-not-fresh", format!("call {} hop {hop}: the handler's context carries the same span id as the wire request", c.body));
                 }
                 out.nontrivial("C18");
-                // C07: shift of this hop
                 if hd != *rd {
                     out.viol("C07", "handler-deadline-differs-from-decoded", format!("call {} hop {hop}: decoded deadline and the deadline given to the handler differ by {:?}", c.body, if hd > *rd { hd - *rd } else { *rd - hd }));
                 }
+            }
+            // C07: shift of this hop, judged on the deadline the receiving channel decoded (which is
+            // what a handler is given; a request that expired on arrival may never reach a handler)
+            {
+                let hd = start.map(|x| x.0).unwrap_or(*rd);
                 let expired_at_send = prev_deadline <= sent.t_before;
                 if !serde_link {
                     if hd != prev_deadline {
@@ -947,6 +955,15 @@ fn final_oracles(cfg: &Cfg, sh: &Rc<RefCell<Shared>>, calls: &[CallRec], log: &W
     out.count("wire_events", log.len() as u64);
     out.count("handler_events", s.hev.len() as u64);
     out.cell(format!("e2e.depth{}", cfg.depth));
+    if !out.viols.is_empty() {
+        // witness detail: what crossed every link and what the handlers did
+        for e in log.iter() {
+            out.trace.push(format!("   wire step{} link{} {} {} {:?}", e.step, e.link, if e.c2s { "c->s" } else { "s->c" }, if e.send { "written" } else { "read" }, match &e.item { Item::Req { id, body, .. } => format!("Request id={id} {body}"), Item::Cancel { id, .. } => format!("Cancel id={id}"), Item::Resp { id, body } => format!("Response id={id} {:?}", body.as_ref().map(|b| b.chars().take(30).collect::<String>())) }));
+        }
+        for e in s.hev.iter() {
+            out.trace.push(format!("   handler {}", match e { HEv::Start { hop, call, .. } => format!("start hop{hop} {call}"), HEv::Finish { hop, call } => format!("finish hop{hop} {call}"), HEv::Drop { hop, call, finished } => format!("drop hop{hop} {call} finished={finished}") }));
+        }
+    }
     if cfg.otel {
         out.cell("C18.otel-subscriber");
         // keep the wire view of the requests in the witness
